@@ -1,6 +1,130 @@
 import PdeVerif.Json
+import PdeVerif.Model.Stencil
+import PdeVerif.Drv.C02
 namespace PdeVerif.Drv.C01
-open Lean PdeVerif
+open Lean PdeVerif PdeVerif.Stencil
+open PdeVerif.Drv.C02 (flatIdx allIdx arrFn)
 
-def handlers : List (String × Handler) := []
+structure Cfg where
+  cls : String
+  shape : List Nat
+  lo : List Rat
+  dx : List Rat
+  op : String
+  method : Method
+  central : Bool
+  conservative : Bool
+  axis : Nat
+
+def parseMethod (s : String) : Except String Method :=
+  match s with
+  | "central" => pure .central
+  | "forward" => pure .forward
+  | "backward" => pure .backward
+  | _ => throw s!"bad method {s}"
+
+def parseCfg (j : Json) : Except String Cfg := do
+  let m ← (match fldOpt j "method" with | some v => do parseMethod (← getS v) | none => pure .central)
+  let c ← (match fldOpt j "central" with | some v => getB v | none => pure true)
+  let cons ← (match fldOpt j "conservative" with | some v => getB v | none => pure true)
+  let ax ← (match fldOpt j "axis" with | some v => getN v | none => pure 0)
+  pure { cls := ← fldS j "cls", shape := ← fldNs j "shape", lo := ← fldQs j "lo", dx := ← fldQs j "dx",
+         op := ← fldS j "op", method := m, central := c, conservative := cons, axis := ax }
+
+def Cfg.dim (c : Cfg) : Nat :=
+  match c.cls with
+  | "cart" => c.shape.length
+  | "polar" => 2
+  | _ => 3
+
+/-- (rank_in, rank_out) of the registered operators -/
+def ranks (op : String) : Except String (Nat × Nat) :=
+  match op with
+  | "laplace" | "gradient_squared" | "d_d" | "d2_d2" => pure (0, 0)
+  | "gradient" => pure (0, 1)
+  | "divergence" => pure (1, 0)
+  | "vector_gradient" => pure (1, 2)
+  | "vector_laplace" => pure (1, 1)
+  | "tensor_divergence" => pure (2, 1)
+  | "tensor_double_divergence" => pure (2, 0)
+  | _ => throw s!"unknown operator {op}"
+
+/-- value of the operator at output multi-index `o` = output components ++ full spatial coords -/
+def applyAt (c : Cfg) (a : Arr Rat) (o : List Int) : Except String Rat := do
+  let (_, rout) ← ranks c.op
+  let oc := (o.take rout).map Int.toNat
+  let sp := o.drop rout
+  let r : Int → Rat := centre (c.lo.getD 0 0) (c.dx.getD 0 1)
+  let dr := c.dx.getD 0 1
+  let dz := c.dx.getD 1 1
+  let i := sp.getD 0 0
+  let j := sp.getD 1 0
+  match c.cls, c.op with
+  | _, "d_d" => pure (d1 c.method (c.dx.getD c.axis 1) a sp c.axis)
+  | _, "d2_d2" => pure (d2 (c.dx.getD c.axis 1) a sp c.axis)
+  | "cart", "laplace" => pure (cartLaplace c.dx a [] sp)
+  | "cart", "gradient" => pure (cartGradient c.method c.dx a [] (oc.getD 0 0) sp)
+  | "cart", "gradient_squared" => pure (cartGradientSquared c.central c.dx a sp)
+  | "cart", "divergence" => pure (cartDivergence c.method c.dx a [] sp)
+  | "cart", "vector_gradient" => pure (cartVectorGradient c.method c.dx a (oc.getD 0 0) (oc.getD 1 0) sp)
+  | "cart", "vector_laplace" => pure (cartVectorLaplace c.dx a (oc.getD 0 0) sp)
+  | "cart", "tensor_divergence" => pure (cartTensorDivergence c.method c.dx a (oc.getD 0 0) sp)
+  | "polar", "laplace" => pure (polarLaplace r dr a i)
+  | "polar", "gradient" => pure (polarGradient c.method dr a (oc.getD 0 0) i)
+  | "polar", "gradient_squared" => pure (d1sq c.central dr a [i] 0)
+  | "polar", "divergence" => pure (polarDivergence r dr a i)
+  | "polar", "vector_gradient" => pure (polarVectorGradient r dr a (oc.getD 0 0) (oc.getD 1 0) i)
+  | "polar", "tensor_divergence" => pure (polarTensorDivergence r dr a (oc.getD 0 0) i)
+  | "sph", "laplace" => pure (sphLaplace c.conservative r dr a i)
+  | "sph", "gradient" => pure (sphGradient c.method dr a (oc.getD 0 0) i)
+  | "sph", "gradient_squared" => pure (d1sq c.central dr a [i] 0)
+  | "sph", "divergence" => pure (sphDivergence c.conservative c.method r dr a i)
+  | "sph", "vector_gradient" => pure (sphVectorGradient c.method r dr a (oc.getD 0 0) (oc.getD 1 0) i)
+  | "sph", "tensor_divergence" => pure (sphTensorDivergence c.conservative r dr a (oc.getD 0 0) i)
+  | "sph", "tensor_double_divergence" => pure (sphTensorDoubleDivergence c.conservative r dr a i)
+  | "cyl", "laplace" => pure (cylLaplace r dr dz a i j)
+  | "cyl", "gradient" => pure (cylGradient dr dz a (oc.getD 0 0) i j)
+  | "cyl", "gradient_squared" => pure (cylGradientSquared c.central dr dz a i j)
+  | "cyl", "divergence" => pure (cylDivergence r dr dz a i j)
+  | "cyl", "vector_gradient" => pure (cylVectorGradient r dr dz a (oc.getD 0 0) (oc.getD 1 0) i j)
+  | "cyl", "vector_laplace" => pure (cylVectorLaplace r dr dz a (oc.getD 0 0) i j)
+  | "cyl", "tensor_divergence" => pure (cylTensorDivergence r dr dz a (oc.getD 0 0) i j)
+  | cls, op => throw s!"operator {op} not modelled for {cls}"
+
+/-- output multi-indices: components (0-based) ++ valid full coordinates (1..N) -/
+def outIdx (c : Cfg) (rout : Nat) : List (List Int) :=
+  (allIdx (List.replicate rout c.dim ++ c.shape)).map fun idx =>
+    idx.take rout ++ (idx.drop rout).map (· + 1)
+
+/-- {"cfg": {...}, "data": [...]} -> operator applied to the padded array (row-major output) -/
+def apply (j : Json) : Except String Json := do
+  let c ← parseCfg (← fld j "cfg")
+  let (rin, rout) ← ranks c.op
+  let data ← fldQs j "data"
+  let fshape := List.replicate rin c.dim ++ c.shape.map (· + 2)
+  let a : Arr Rat := arrFn fshape data.toArray
+  let vals ← (outIdx c rout).mapM (applyAt c a)
+  pure (jQs vals)
+
+/-- {"cfg": {...}} -> sparse matrix [[out_flat, in_flat, value], ...] of a linear operator -/
+def matrix (j : Json) : Except String Json := do
+  let c ← parseCfg (← fld j "cfg")
+  let (rin, rout) ← ranks c.op
+  let fshape := List.replicate rin c.dim ++ c.shape.map (· + 2)
+  let ins := allIdx fshape
+  let outs := outIdx c rout
+  let mut res : Array Json := #[]
+  let mut jin := 0
+  for bi in ins do
+    let a : Arr Rat := fun idx => if idx == bi then 1 else 0
+    let mut jo := 0
+    for o in outs do
+      let v ← applyAt c a o
+      if v != 0 then
+        res := res.push (Json.arr #[toJson jo, toJson jin, jQ v])
+      jo := jo + 1
+    jin := jin + 1
+  pure (Json.arr res)
+
+def handlers : List (String × Handler) := [("c01.apply", apply), ("c01.matrix", matrix)]
 end PdeVerif.Drv.C01
